@@ -104,7 +104,7 @@ func (c *Ctx) ruleMRTRibFamilies() {
 	// dump writer: families mapped to specific subtypes
 	{
 		got := map[string]bool{}
-		for _, f := range append([]*ssa.Function{dump}, dump.AnonFuncs...) {
+		for _, f := range c.withHelpers(dump, 2) {
 			info := c.infoFor(f)
 			body := funcBody(f)
 			if info == nil || body == nil {
